@@ -152,9 +152,9 @@ def r5_anchors(ctx, res):
         v = view(ctx, 'similarity', m)
         specs = [(sp[0], _x(sp[1]), tuple(_x(g) for g in (sp[2] if len(sp) > 2 else ()))) for sp in want]
         expect(res, f'formula:{m}', v, specs, f'documented: {DOC[m]}')
-    key = 'formula:most-informative'
-    f = ctx.repo.func('similarity', '_most_informative_lcs')
-    res.inst(key, f.module.loc(f.node), 'via res/jcn/lin (helper expanded)')
+    expect(res, 'formula:most-informative', view(ctx, 'similarity', '_most_informative_lcs'),
+           [('return', 'max(_least_common_subsumers(synset1, synset2, False), key=lambda _1: ic[synset1.pos][_1.id])')],
+           'the most informative subsumer is the common subsumer (no simulated root) with the greatest IC weight')
 
 
 # calls that raise the documented wn.Error; each must have been evaluated on every path that returns a value
